@@ -31,6 +31,7 @@ func init() {
 		g.callSeq("C03Pool", "pkg/controllers/disruption", "Queue.StartCommand", "startCommandCalls",
 			[]string{"HasAny", "markDisrupted", "createReplacementNodeClaims", "MarkForDeletion"})
 		g.c03StartCommandEarlyRelease()
+		g.c03StaticDriftCap()
 		g.callSeq("C03Pool", "pkg/controllers/provisioning", "Provisioner.CreateNodeClaims", "createNodeClaimsCalls",
 			[]string{"p.Create", "ReleaseNodeCount"})
 		g.callSeq("C03Pool", "pkg/controllers/state", "Cluster.UpdateNodeClaim", "clusterUpdateNodeClaimCalls",
@@ -238,4 +239,176 @@ func (g *gen) c03StartCommandEarlyRelease() {
 		}
 	}
 	fmt.Fprintf(g.out("C03Pool"), "/-- `Queue.StartCommand` (%s) gives the reserved node slots of a command back on the paths that return before `createReplacementNodeClaims` -/\ndef startCommandReleasesEarly : Bool := %v\n\n", g.pos(fd.Pos()), early)
+}
+
+// c03StaticDriftCap: how many drifts StaticDrift.ComputeCommands asks ReserveNodeCount for, per pool of the pass:
+// the arguments of `maxDrifts := lo.Min([]int64{…})` by class (0 = the pool's disruption budget, 1 = the number of
+// candidates of the pool being processed, 2 = the number of candidates of all pools), and that the cap is what is
+// reserved, for the pool being processed, and that the commands are built from `<pool candidates>[:<granted>]`.
+func (g *gen) c03StaticDriftCap() {
+	_, fd := g.findFunc("pkg/controllers/disruption", "StaticDrift.ComputeCommands")
+	if fd == nil {
+		return
+	}
+	var params []string
+	for _, f := range fd.Type.Params.List {
+		for _, n := range f.Names {
+			params = append(params, n.Name)
+		}
+	}
+	if len(params) < 3 {
+		g.errf("StaticDrift.ComputeCommands: expected (ctx, budgets, candidates...) parameters")
+		return
+	}
+	budgetParam, allParam := params[1], params[len(params)-1]
+	// candidatesByNodePool := lo.GroupBy(candidates, …); for key, value := range candidatesByNodePool
+	grouped := map[string]bool{}
+	ast.Inspect(fd.Body, func(n ast.Node) bool {
+		as, ok := n.(*ast.AssignStmt)
+		if !ok || len(as.Lhs) != 1 || len(as.Rhs) != 1 {
+			return true
+		}
+		ce, ok := as.Rhs[0].(*ast.CallExpr)
+		if !ok || exprString(ce.Fun) != "lo.GroupBy" || len(ce.Args) < 1 || exprString(ce.Args[0]) != allParam {
+			return true
+		}
+		if id, ok := as.Lhs[0].(*ast.Ident); ok {
+			grouped[id.Name] = true
+		}
+		return true
+	})
+	var loop *ast.RangeStmt
+	ast.Inspect(fd.Body, func(n ast.Node) bool {
+		rs, ok := n.(*ast.RangeStmt)
+		if ok && loop == nil && grouped[exprString(rs.X)] {
+			loop = rs
+		}
+		return true
+	})
+	if loop == nil || loop.Key == nil || loop.Value == nil {
+		g.errf("StaticDrift.ComputeCommands: no `for name, candidates := range lo.GroupBy(%s, …)` loop found", allParam)
+		return
+	}
+	keyVar, valueVar := exprString(loop.Key), exprString(loop.Value)
+	// np := <value>[0].NodePool
+	poolIdents := map[string]bool{}
+	ast.Inspect(loop.Body, func(n ast.Node) bool {
+		as, ok := n.(*ast.AssignStmt)
+		if !ok || len(as.Lhs) != 1 || len(as.Rhs) != 1 {
+			return true
+		}
+		if g.render(as.Rhs[0]) == valueVar+"[0].NodePool" {
+			poolIdents[exprString(as.Lhs[0])] = true
+		}
+		return true
+	})
+	isPoolKey := func(e ast.Expr) bool {
+		if id, ok := e.(*ast.Ident); ok {
+			return id.Name == keyVar
+		}
+		if se, ok := e.(*ast.SelectorExpr); ok && se.Sel.Name == "Name" {
+			return poolIdents[exprString(se.X)]
+		}
+		return false
+	}
+	strip := func(e ast.Expr) ast.Expr {
+		for {
+			switch v := e.(type) {
+			case *ast.ParenExpr:
+				e = v.X
+				continue
+			case *ast.CallExpr:
+				if id, ok := v.Fun.(*ast.Ident); ok && len(v.Args) == 1 && (id.Name == "int64" || id.Name == "int" || id.Name == "int32") {
+					e = v.Args[0]
+					continue
+				}
+			}
+			return e
+		}
+	}
+	var capVar, capText string
+	var capPos token.Pos
+	var classes []int
+	bad := ""
+	var grantVar string
+	reserveOK := false
+	ast.Inspect(loop.Body, func(n ast.Node) bool {
+		as, ok := n.(*ast.AssignStmt)
+		if !ok || len(as.Lhs) != 1 || len(as.Rhs) != 1 {
+			return true
+		}
+		ce, ok := as.Rhs[0].(*ast.CallExpr)
+		if !ok {
+			return true
+		}
+		switch {
+		case exprString(ce.Fun) == "lo.Min" && len(ce.Args) == 1:
+			cl, ok := ce.Args[0].(*ast.CompositeLit)
+			if !ok {
+				bad = "lo.Min over " + g.render(ce.Args[0])
+				return true
+			}
+			capVar, capText, capPos = exprString(as.Lhs[0]), g.render(ce), as.Pos()
+			for _, el := range cl.Elts {
+				e := strip(el)
+				switch v := e.(type) {
+				case *ast.IndexExpr:
+					if exprString(v.X) == budgetParam && isPoolKey(v.Index) {
+						classes = append(classes, 0)
+						continue
+					}
+				case *ast.CallExpr:
+					if exprString(v.Fun) == "len" && len(v.Args) == 1 {
+						switch exprString(v.Args[0]) {
+						case valueVar:
+							classes = append(classes, 1)
+							continue
+						case allParam:
+							classes = append(classes, 2)
+							continue
+						}
+					}
+				}
+				bad = g.render(el)
+			}
+		case strings.HasSuffix(exprString(ce.Fun), "ReserveNodeCount") && len(ce.Args) == 3:
+			grantVar = exprString(as.Lhs[0])
+			reserveOK = isPoolKey(ce.Args[0]) && capVar != "" && exprString(ce.Args[2]) == capVar
+		}
+		return true
+	})
+	if capVar == "" {
+		g.errf("StaticDrift.ComputeCommands: no `x := lo.Min([]int64{…})` inside the per-pool loop")
+		return
+	}
+	if bad != "" {
+		g.errf("StaticDrift.ComputeCommands: the cap on the drifts of a pool has an argument the model does not know: %s", bad)
+		return
+	}
+	if !reserveOK {
+		g.errf("StaticDrift.ComputeCommands: ReserveNodeCount is not called as (<pool being processed>, limit, %s)", capVar)
+		return
+	}
+	sliced := false
+	ast.Inspect(loop.Body, func(n ast.Node) bool {
+		se, ok := n.(*ast.SliceExpr)
+		if ok && exprString(se.X) == valueVar && se.Low == nil && se.High != nil && exprString(se.High) == grantVar && se.Max == nil {
+			sliced = true
+		}
+		return true
+	})
+	if !sliced {
+		g.errf("StaticDrift.ComputeCommands: the commands are not built from `%s[:%s]`", valueVar, grantVar)
+		return
+	}
+	b := g.out("C03Pool")
+	fmt.Fprintf(b, "/-- the number of drifts `StaticDrift.ComputeCommands` asks `ReserveNodeCount` for, for the pool being processed (%s):\n    `%s`; the commands are built from `%s[:%s]` -/\ndef staticDriftCapText : String := %s\n\n", g.pos(capPos), capText, valueVar, grantVar, leanStr(capText))
+	fmt.Fprintf(b, "/-- its arguments by class: 0 = the pool's disruption budget, 1 = number of drifted candidates of the pool being processed, 2 = number of drifted candidates of all pools of the pass -/\ndef staticDriftCapArgs : List Nat := [")
+	for i, c := range classes {
+		if i > 0 {
+			b.WriteString(", ")
+		}
+		fmt.Fprintf(b, "%d", c)
+	}
+	b.WriteString("]\n\n")
 }
